@@ -29,6 +29,15 @@ def jobs(tier):
     J.append(core.Job(name="errpdu_refusals", harness="rtr_errpdu_unit.c", entry="harness_refusals", unwind=230, timeout=600,
                       sources=PKT_SOURCES, object_bits=10, desc="no report about an Error Report",
                       bounds={}, stubs=["tr_send_all: wire monitor"]))
+    # the wire monitor stands in for tr_send_all in every job above, so "the bytes handed to the transport are one
+    # well-formed PDU" reaches the wire only if the real tr_send_all delivers exactly those bytes, in order, however
+    # the transport splits the writes (seed S-C14-3: second short write of one PDU re-sends its head)
+    J.append(core.Job(name="transport_send_all", harness="transport_all.c", entry="harness_send", defines=["TLEN=%d" % (12 if tier == "quick" else 14)],
+                      unwind=26, timeout=900, memory_checks=True, object_bits=9, flags_meta=["unwind-is-violation"],
+                      desc="real tr_send_all over a transport accepting arbitrary chunk sizes 1..remaining with faults at any call: "
+                           "the bytes that reach the transport are exactly the PDU's bytes in order",
+                      bounds={"length": "0..%d bytes" % (12 if tier == "quick" else 14)},
+                      stubs=["send callback: arbitrary chunking and faults", "clock: arbitrary"]))
     fam = fam_openers() + fam_after_cr() + fam_after_cr([V4]) + [[CR, EOD], [CR, V4, EOD], [CR, V6, EOD], [CR, KEY, EOD], [CR, V4, V4, EOD]]
     if tier == "thorough":
         fam += fam_complete(tier)[6:]
